@@ -127,7 +127,7 @@ def run_job(sess, job):
     res = {'job': job.name, 'tier': job.tier, 'width': job.width, 'root': job.root, 'cmds': [], 'obligations': [], 'status': 'undecided',
            'note': '', 'seconds': 0.0, 'solver_s': 0.0, 'backend': job.backend, 'meta': None, 'proves': job.proves, 'bounded_note': job.bounded_note}
     t00 = time.time()
-    d = os.path.join(sess.scratch, re.sub(r'\W', '_', job.name)); os.makedirs(d, exist_ok=True)
+    d = os.path.join(sess.scratch, re.sub(r'[^A-Za-z0-9_.-]', '_', job.name) + '-' + hashlib.sha1(job.name.encode()).hexdigest()[:6]); os.makedirs(d, exist_ok=True)
     try:
         tu = sess.tu(job.tu)
         lw = osmt2c.Lowerer(tu, stubs=job.stubs, opaque_records=job.opaque, srcroot=sess.repo)
@@ -237,6 +237,8 @@ def classify(job, obs, res):
             if o.status != 'SUCCESS':
                 raise Undecided('the lowered code calls %s, for which no stub with a contract exists' % o.function)
             o.cls = 'excluded'; continue
+        if 'unwinding assertion' in o.desc and o.status != 'SUCCESS':
+            raise Undecided('unwinding bound too small for %s (%s) -- a bounded job must unwind completely' % (o.function, o.pid))
         if o.status == 'SUCCESS': o.cls = 'discharged'
         elif o.status == 'FAILURE': o.cls = 'violated'; failed.append(o)
         else: o.cls = 'undecided'; unknown.append(o)
@@ -276,6 +278,15 @@ def trace_values(trace, names=None, prefix=None):
             v = s.get('value', {})
             vals[lhs] = v.get('data', v.get('name'))
     return vals
+
+def toint(v, dflt=None):
+    """integer value of a CBMC trace datum ('-5', '42u', '7ul', 'TRUE')"""
+    if v is None: return dflt
+    t = str(v).strip()
+    if t in ('TRUE', 'true'): return 1
+    if t in ('FALSE', 'false'): return 0
+    m = re.match(r'^(-?\d+)[uUlL]*$', t)
+    return int(m.group(1)) if m else dflt
 
 def sha256_file(p):
     try: return hashlib.sha256(open(p, 'rb').read()).hexdigest()
